@@ -378,6 +378,11 @@ def r6_label_vs_assign_lookahead(ctx: Ctx) -> None:
         raise AnalysisError("Scanner.peek: expected `self.input[self.pos + k]` with k defaulting to 0")
     tests = [n for n in walk_no_nested(li.node) if isinstance(n, ast.If) and "':'" in unparse(n.test) and "'='" in unparse(n.test)]
     if len(tests) != 1:
+        # the same decision taken by stepping over the colon: `s.accept(':') and s.peek() != '='` (then the cursor is put back)
+        alt = [n for n in walk_no_nested(li.node) if isinstance(n, ast.BoolOp) and isinstance(n.op, ast.And) and [unparse(v) for v in n.values] == ["s.accept(':')", "s.peek() != '='"]]
+        if len(alt) == 1:
+            ctx.ok("lex_identifier:label-lookahead", "a label is `:` not followed directly by `=` (decided by stepping over the colon)")
+            return
         raise AnalysisError("lex_identifier: label / assignment look-ahead not found")
     offs = {}
     for c in ast.walk(tests[0].test):
